@@ -13,6 +13,11 @@ import (
 )
 
 func main() {
+	asm := false
+	if len(os.Args) > 2 && os.Args[1] == "-S" {
+		asm = true
+		os.Args = os.Args[1:]
+	}
 	b, err := os.ReadFile(os.Args[1])
 	if err != nil {
 		panic(err)
@@ -28,6 +33,9 @@ func main() {
 	if res.BuildErr != nil || res.BuildPanic != nil {
 		fmt.Println("== scriggo build:", res.Describe())
 		return
+	}
+	if asm {
+		d, _ := p.Disassemble("main"); fmt.Printf("%s\n", d)
 	}
 	r := sg.RunProgram(p, sg.Opts{})
 	fmt.Printf("== scriggo\n%s", r.Printed)
